@@ -1,5 +1,107 @@
-(* C07 - placeholder while the proofs are being built *)
-From Coq Require Import NArith.
-From Cproc Require Import Model.Init.
-Example C07_placeholder : w64 5 = 5%N.
-Proof. reflexivity. Qed.
+(* C07 - initialised objects contain exactly the specified initial image.
+   Only statements, each closed by `exact`, with Print Assumptions beneath; Examples for non-vacuity.
+   Models: Model/Init.v (init.c), Model/DataEmit.v (qbe.c emitdata/dataitem), Model/AutoInit.v (qbe.c funcinit/funcstore),
+   Model/Zero.v (qbe.c zero).  Specification: Spec/InitSpec.v (leaf writes overlaid in source order on a zero object). *)
+From Coq Require Import List NArith Bool Sorted.
+From Cproc Require Import Lib.InitBits Model.Init Model.DataEmit Model.AutoInit Spec.InitSpec
+  Proofs.InitProofs Proofs.DataEmitProofs Proofs.AutoInitProofs.
+Import ListNotations.
+Local Open Scope N_scope.
+
+(* ---- init.c:initadd.  Pre l last n: p->last lies in the list, ranges are non-empty, the list is ordered (an entry
+   precedes the entries after it and the entries nested in it), the new range is disjoint from / nested in / covering
+   each old range (laminar, as sub-objects of one object are), and the entries before p->last are ones the loop would
+   walk past. *)
+Theorem C07_initadd_denote : forall en l last n, Pre l last n ->
+  denote en (fst (initadd l last n)) = write en (denote en l) (leaf_of n).
+Proof. exact initadd_denote. Qed.
+Print Assumptions C07_initadd_denote.
+
+Theorem C07_initadd_sorted : forall l last n, Pre l last n ->
+  Inv (fst (initadd l last n)) /\ Forall nonempty (fst (initadd l last n)) /\
+  nth_error (fst (initadd l last n)) (pred (snd (initadd l last n))) = Some n.
+Proof. exact initadd_sorted. Qed.
+Print Assumptions C07_initadd_sorted.
+
+Theorem C07_initadd_last_irrelevant : forall l last n, Pre l last n -> fst (initadd l last n) = fst (initadd l 0 n).
+Proof. exact initadd_last_irrelevant. Qed.
+Print Assumptions C07_initadd_last_irrelevant.
+
+(* later initializers override earlier ones: a list built by adding entries in source order denotes their overlay *)
+Theorem C07_built_denote : forall en l src, built l src -> denote en l = overlay en (map leaf_of src).
+Proof. exact built_denote. Qed.
+Print Assumptions C07_built_denote.
+
+(* without laminarity the statement is false (sub-objects of two different members of a union) *)
+Theorem C07_initadd_partial_overlap_refuted :
+  exists en l n, Inv l /\ Forall nonempty l /\ nonempty n /\
+    denote en (fst (initadd l 0 n)) <> write en (denote en l) (leaf_of n).
+Proof. exact initadd_partial_overlap_refuted. Qed.
+Print Assumptions C07_initadd_partial_overlap_refuted.
+
+(* ---- qbe.c:emitdata on a sorted list of non-overlapping entries: no assertion fires, exactly `size` bytes are
+   emitted, and they are the specified image (gaps, bit-field neighbours, string tails and the trailing part zero) *)
+Theorem C07_emitdata_image : forall en size l,
+  size * 8 < M64 -> Forall wf_entry l -> sorted_disjoint l -> within size l ->
+  exists items, emitdata size l = DOk items /\
+    N.of_nat (length (items_bytes (symaddr en) items)) = size /\
+    bytes_num (items_bytes (symaddr en) items) = image en size (map leaf_of l).
+Proof. exact emitdata_image. Qed.
+Print Assumptions C07_emitdata_image.
+
+Theorem C07_static_image : forall en size l src,
+  built l src -> size * 8 < M64 -> Forall wf_entry l -> sorted_disjoint l -> within size l ->
+  exists items, emitdata size l = DOk items /\
+    N.of_nat (length (items_bytes (symaddr en) items)) = size /\
+    bytes_num (items_bytes (symaddr en) items) = image en size (map leaf_of src).
+Proof. exact static_image. Qed.
+Print Assumptions C07_static_image.
+
+(* D18: with two members of a union initialised emitdata fails its own assertion *)
+Theorem C07_union_two_members_refuted :
+  exists size l, Forall wf_entry l /\ Inv l /\ within size l /\ emitdata size l = DAssertCurString.
+Proof. exact union_two_members_refuted. Qed.
+Print Assumptions C07_union_two_members_refuted.
+
+(* ---- qbe.c:funcinit / zero / funcstore: the emitted stores leave the specified image in the object, whatever
+   the memory held before, when no entry is nested in an earlier one *)
+Theorem C07_funcinit_image_partial : forall en size align l,
+  (exists k, align = 2 ^ k) -> Forall wf_auto l -> sorted_disjoint l ->
+  exists ops, funcinit size align l = AOk ops /\
+    forall mem0, exec_all en mem0 ops mod 2 ^ (8 * size) = image en size (map leaf_of l).
+Proof. exact funcinit_image_partial. Qed.
+Print Assumptions C07_funcinit_image_partial.
+
+Theorem C07_auto_image : forall en size align l src,
+  built l src -> (exists k, align = 2 ^ k) -> Forall wf_auto l -> sorted_disjoint l ->
+  exists ops, funcinit size align l = AOk ops /\
+    forall mem0, exec_all en mem0 ops mod 2 ^ (8 * size) = image en size (map leaf_of src).
+Proof. exact auto_image. Qed.
+Print Assumptions C07_auto_image.
+
+(* ... and it is false with a nested entry (finding funcinit-zero-after-covered-entry) *)
+Theorem C07_funcinit_image_refuted :
+  exists en size align l, (exists k, align = 2 ^ k) /\ Forall wf_auto l /\ Inv l /\
+    exists ops, funcinit size align l = AOk ops /\ exec_all en 0 ops mod 2 ^ (8 * size) <> image en size (map leaf_of l).
+Proof. exact funcinit_image_refuted. Qed.
+Print Assumptions C07_funcinit_image_refuted.
+
+(* ---- non-vacuity *)
+Example C07_initadd_nonvacuous :
+  Pre [ex_S; ex_x] 2 ex_y /\ initadd [ex_S; ex_x] 2 ex_y = ([ex_S; ex_x; ex_y], 3%nat) /\
+  Pre [ex_S; ex_x; ex_y] 0 ex_x /\ fst (initadd [ex_S; ex_x; ex_y] 0 ex_x) = [ex_S; ex_x; ex_y].
+Proof. exact initadd_nonvacuous. Qed.
+
+Example C07_emitdata_nonvacuous :
+  Forall wf_entry ex_list /\ sorted_disjoint ex_list /\ within 40 ex_list /\
+  emitdata 40 ex_list =
+    DOk [IInt 1 [87]; IInt 1 [85]; IInt 1 [300]; IZero 5; IRef 3 12; IStr [97; 98; 0]; IZero 2; IZero 5;
+         IInt 1 [224]; IInt 1 [255]; IInt 1 [255]; IInt 1 [255]; IInt 1 [255]; IInt 1 [15]; IZero 8].
+Proof. exact emitdata_image_nonvacuous. Qed.
+
+Example C07_funcinit_nonvacuous :
+  Forall wf_auto ex_list /\ sorted_disjoint ex_list /\
+  exists ops, funcinit 40 8 ex_list = AOk ops /\ length ops = 17%nat /\
+    exec_all (mkenv (fun s => 4096 * s) (fun _ => 0)) (2 ^ 400 - 1) ops mod 2 ^ 320 =
+    image (mkenv (fun s => 4096 * s) (fun _ => 0)) 40 (map leaf_of ex_list).
+Proof. exact funcinit_image_nonvacuous. Qed.
